@@ -1150,6 +1150,12 @@ def check_real(case):
         f = f or _check_real_frame(spec, df, N, cols, "forward_sample")
         if f:
             return f
+        # no evidence: rejection sampling degenerates to forward sampling, still under the caller's seed
+        df, f = twice("rejection_sample", lambda s: s.rejection_sample(evidence=[], size=N, include_latents=incl, seed=sd, show_progress=False))
+        f = f or _check_real_frame(spec, df, N, cols, "rejection_sample")
+        if f:
+            f["what"] = "evidence []: " + f["what"]
+            return f
         for ev in evs[:2]:
             evl = [State(v, st) for v, st in ev.items()]
             df, f = twice("rejection_sample", lambda s: s.rejection_sample(evidence=evl, size=N, include_latents=incl, seed=sd, show_progress=False))
